@@ -160,10 +160,10 @@ Section EntryInvariant.
       { destruct G1 as (A & B & D & E). destruct Hn as [Hn | Hn].
         - inversion Hn; subst; auto.
         - cbn [fst snd] in Hn. rewrite Forall_forall in E. apply (E (id, tree) Hn). }
-      destruct (node_ts (reload tree) <? tsf); cbn [fst]; sa; cbn [s_root s_last s_snaps s_dumps]; auto;
-        try discriminate.
-      + apply PQ_set_ts, PQ_reload; auto.
-      + apply PQ_reload; auto.
+      pose proof (PQ_reload tree Gt) as Gr.
+      assert (Gl : forall l, Some (reload tree) = Some l -> PQ l) by (intros l El; inversion El; subst; exact Gr).
+      destruct (node_ts (reload tree) <? tsf); cbn [fst]; sa; cbn [s_root s_last s_snaps s_dumps]; auto.
+      apply PQ_set_ts; auto.
     - unfold snapshot. destruct (_ <? _); [exact G|]. destruct (_ =? _); [exact G|].
       set (st1 := if s_mut st then _ else st).
       assert (G1 : st_all st1).
